@@ -631,6 +631,10 @@ func w3Gen(r *rand.Rand, prop, tier string) *simrt.Case {
 			// the lease over again, and lives on for longer than the old session's TTL; others keep asking
 			p, q := int64(r.IntN(2)), int64(r.IntN(2))
 			ttl := cfg["lease_ttl_s"] * 1000
+			if r.IntN(2) == 0 {
+				// one of the returning broker's etcd round trips takes longer than what is left of the old lease
+				c.Faults = append(c.Faults, simrt.Fault{Kind: "etcd.slow", Op: "etcd.", Key: "@n0", Nth: 2 + r.IntN(14), Count: 1, Arg: (ttl/2 + int64(r.IntN(int(ttl)+1000))) * 1e6})
+			}
 			c.Program = append(c.Program, simrt.Op{Actor: 0, Kind: "acquire-p", A: p, B: q}, simrt.Op{Actor: 0, Kind: "restart", C: int64(r.IntN(300))}, simrt.Op{Actor: 0, Kind: "acquire-p", A: p, B: q})
 			c.Program = append(c.Program, simrt.Op{Actor: 0, Kind: "sleep", A: ttl + 1500}, simrt.Op{Actor: 0, Kind: "acquire-p", A: p, B: q}, simrt.Op{Actor: 0, Kind: "sleep", A: 2000})
 			for i := 0; i < 6; i++ {
